@@ -1,6 +1,6 @@
 """check configuration for C13 (loaded by lib/zvprops.py)"""
 
-PROP = {'gen_tables': ['Delegates', 'TransMultiWS', 'TransLocked'],
+PROP = {'gen_tables': ['Delegates', 'TransMultiWS', 'TransLocked', 'TransWriters'],
  'rule': 'ops: exhaustive outcome vectors ({full,short,zero}×{err,nil})^k for k≤3 (quick) / k≤4 (thorough) sinks, random vectors, all Sync error '
          'subsets for ≤5 sinks, AddSync/Lock relay grid, payload classes × 4 zap writers, concurrent Lock programs; non-trivial = ≥2 sinks with ≥2 '
          'distinct counts / ≥1 sync error / non-empty payload; distinct = distinct canonical op JSON',
